@@ -230,6 +230,109 @@ func lrStack(comp string, ph []lrPhase, fail lrFail) {
 	check()
 }
 
+// ---------------------------------------------------------------- element type any
+
+// lrAnyElems: the containers instantiated with an INTERFACE element type, holding values of several dynamic
+// types and nil (an implementation detail that cannot hold nil or mixed types -- atomic.Value, a typed
+// sentinel -- shows here). Every sequence of pushes over the value list up to length 3, then a full drain,
+// then one more push/pop.
+func lrAnyElems(rep *core.Report, only ...string) {
+	vals := []any{1, "a", nil, 2.5, true}
+	type cont struct {
+		name string
+		mk   func(first any) (push func(any), pop func() any, peek func() any, size func() int, search func(any) bool)
+		fifo bool
+	}
+	conts := []cont{
+		{"Stack", func(first any) (func(any), func() any, func() any, func() int, func(any) bool) {
+			s := stack.New[any]()
+			s.Push(first)
+			return s.Push, s.Pop, s.Peek, s.Size, s.Search
+		}, false},
+		{"Queue", func(first any) (func(any), func() any, func() any, func() int, func(any) bool) {
+			q := queue.New[any]()
+			q.Enqueue(first)
+			return q.Enqueue, func() any { v, _ := q.Dequeue(); return v }, q.Peek, q.Size, q.Search
+		}, true},
+		{"LQueue", func(first any) (func(any), func() any, func() any, func() int, func(any) bool) {
+			q := queue.NewLinked[any](first)
+			return q.Enqueue, q.Dequeue, q.Peek, q.Size, q.Search
+		}, true},
+	}
+	n := 0
+	for _, ct := range conts {
+		use := false
+		for _, o := range only {
+			use = use || o == ct.name
+		}
+		if !use {
+			continue
+		}
+		var seqs [][]any
+		var gen func(cur []any)
+		gen = func(cur []any) {
+			if len(cur) >= 1 {
+				seqs = append(seqs, append([]any{}, cur...))
+			}
+			if len(cur) == 3 {
+				return
+			}
+			for _, v := range vals {
+				gen(append(cur, v))
+			}
+		}
+		gen(nil)
+		for _, sq := range seqs {
+			n++
+			wit := fmt.Sprintf("%s[any]: push %v, drain, push/pop once more", ct.name, sq)
+			func() {
+				defer func() {
+					if r := recover(); r != nil {
+						rep.Add(ct.name+"/element-type-any/panic", fmt.Sprintf("panic: %v", r), wit, nil)
+					}
+				}()
+				push, pop, peek, size, search := ct.mk(sq[0])
+				for _, v := range sq[1:] {
+					push(v)
+				}
+				if size() != len(sq) {
+					rep.Add(ct.name+".Size/element-type-any", fmt.Sprintf("Size = %d, want %d", size(), len(sq)), wit, nil)
+					return
+				}
+				for i := range sq {
+					want := sq[len(sq)-1-i]
+					if ct.fifo {
+						want = sq[i]
+					}
+					if want != nil && !search(want) {
+						rep.Add(ct.name+".Search/element-type-any", fmt.Sprintf("Search(%v) = false although it is held", want), wit, nil)
+						return
+					}
+					if g := peek(); g != want {
+						rep.Add(ct.name+".Peek/element-type-any", fmt.Sprintf("Peek = %v, want %v", g, want), wit, nil)
+						return
+					}
+					if g := pop(); g != want {
+						rep.Add(ct.name+".Pop/element-type-any", fmt.Sprintf("removal %d returned %v, want %v", i+1, g, want), wit, nil)
+						return
+					}
+				}
+				if ct.name != "LQueue" { // the linked queue keeps its first node
+					if size() != 0 {
+						rep.Add(ct.name+".Size/element-type-any", fmt.Sprintf("Size = %d after a full drain", size()), wit, nil)
+						return
+					}
+					push("again")
+					if g := pop(); g != "again" || size() != 0 {
+						rep.Add(ct.name+".Pop/element-type-any", fmt.Sprintf("after a drain: push then removal returned %v (Size %d)", g, size()), wit, nil)
+					}
+				}
+			}()
+		}
+	}
+	rep.Inc("transitions", n*8)
+}
+
 // ---------------------------------------------------------------- LRU
 
 // phases: Add xN adds N fresh keys; Get xN looks up key I (the I-th oldest live key) N times;
@@ -535,9 +638,11 @@ func init() {
 			}
 			lrRun(rep, comp, hs, func(ph []lrPhase, fail lrFail) { lrQueue(comp, ph, fail) })
 		}
+		lrAnyElems(rep, "Queue", "LQueue")
 		rep.Set("long_run_family", fmt.Sprintf("every history Enqueue^n Dequeue^k Enqueue^m with n,m <= %d, k <= n+1, both implementations", L))
 	}
 	extras["C06"] = func(rep *core.Report) {
+		lrAnyElems(rep, "Stack")
 		L, deep, deepL := 32, 1400, 160
 		if thorough {
 			L, deep, deepL = 64, 2400, 300
@@ -618,6 +723,30 @@ func init() {
 				hs = append(hs, []lrPhase{{"Add", n}, {"Flush", 1}, {"Add", 3}, {"RemoveOldest", 1}, {"Flush", 1}, {"RemoveYoungest", 1}})
 			}
 			lrRun(rep, fmt.Sprintf("LRU(cap=%d)", capacity), hs, func(ph []lrPhase, fail lrFail) { lrLRU(capacity, ph, fail) })
+		}
+		// very large capacities (a 16-bit field, a pre-sizing clamp): the cache holds exactly `capacity`
+		// entries, the first eviction comes with Add number capacity+1 and takes the first key
+		for _, capacity := range []int{4095, 4096, 4097, 65535, 65536, 65537, 70000} {
+			c, err := cache.NewLRU[int, int](capacity)
+			wit := fmt.Sprintf("LRU(cap=%d): Add x%d", capacity, capacity+2)
+			if err != nil {
+				rep.Add("LRU.NewLRU/long-run/error", fmt.Sprintf("NewLRU(%d): %v", capacity, err), wit, nil)
+				continue
+			}
+			for k := 1; k <= capacity+2; k++ {
+				gk, _, removed := c.Add(k, k*10)
+				if want := k > capacity; removed != want || (removed && gk != k-capacity) {
+					rep.Add("LRU.Add/long-run/evicts-wrong-entry", fmt.Sprintf("LRU(cap=%d): Add number %d reported eviction=(%d,%t), want evicted=%t (key %d)", capacity, k, gk, removed, want, k-capacity), wit, nil)
+					break
+				}
+			}
+			if n := c.Count(); n != capacity {
+				rep.Add("LRU.Count/long-run/wrong", fmt.Sprintf("LRU(cap=%d) after %d Adds: Count = %d", capacity, capacity+2, n), wit, nil)
+			}
+			if k, _, ok := c.GetOldest(); !ok || k != 3 {
+				rep.Add("LRU.GetOldest/long-run/wrong-entry", fmt.Sprintf("LRU(cap=%d) after %d Adds: GetOldest = (%d,%t), want key 3", capacity, capacity+2, k, ok), wit, nil)
+			}
+			rep.Inc("transitions", capacity+4)
 		}
 		rep.Set("long_run_family", fmt.Sprintf("capacity 1..3: fill, one live key looked up g <= %d times in a row, another <= 2 times, two more Adds; up to %d consecutive Adds of fresh keys; up to %d Add+Remove cycles", G, A, A))
 	}
@@ -866,9 +995,82 @@ func init() {
 				rep.Add("Trie.StartsWith/differs/many-keys", fmt.Sprintf("%s: StartsWith(b) yields %d keys, want %d", wit, len(got), len(wb)), wit, nil)
 			}
 		}
+		// shapes: long keys (every length 1..140: a length kept in a byte, a bit mask of lengths) and deep
+		// spines (m keys that differ at one byte position, inserted descending / ascending / middle-out:
+		// the sibling chain at that position is m deep on one side)
+		check := func(wit string, keys []string) {
+			tr := trie.New[string, int](queue.New[string]())
+			want := map[string]int{}
+			for i, k := range keys {
+				tr.Put(k, i)
+				want[k] = i
+			}
+			trans += len(keys)
+			if tr.Size() != len(want) {
+				rep.Add("Trie.Size/shapes", fmt.Sprintf("%s: Size = %d, want %d", wit, tr.Size(), len(want)), wit, nil)
+			}
+			var sorted []string
+			for k, v := range want {
+				sorted = append(sorted, k)
+				if g, ok := tr.Get(k); !ok || g != v || !tr.Contains(k) {
+					rep.Add("Trie.Get/stored-key-not-found/shapes", fmt.Sprintf("%s: Get(key of %d bytes) = (%d,%t), Contains = %t, want (%d,true)", wit, len(k), g, ok, tr.Contains(k), v), wit, nil)
+					return
+				}
+				if len(k) > 1 {
+					if _, ok := tr.Get(k[:len(k)-1]); ok != (want[k[:len(k)-1]] != 0 || keys[0] == k[:len(k)-1]) {
+						if _, stored := want[k[:len(k)-1]]; !stored {
+							rep.Add("Trie.Get/proper-prefix-reported/shapes", fmt.Sprintf("%s: Get finds the %d-byte prefix of a stored key", wit, len(k)-1), wit, nil)
+							return
+						}
+					}
+				}
+			}
+			sort.Strings(sorted)
+			q, err := tr.Keys()
+			if got := drainQ(q); err != nil || fmt.Sprint(got) != fmt.Sprint(sorted) {
+				rep.Add("Trie.Keys/differs/shapes", fmt.Sprintf("%s: Keys() yields %d keys (err %v), want %d, each once, in byte order", wit, len(got), err, len(sorted)), wit, nil)
+				return
+			}
+			p := sorted[len(sorted)/2][:1]
+			var wp []string
+			for _, k := range sorted {
+				if strings.HasPrefix(k, p) {
+					wp = append(wp, k)
+				}
+			}
+			q, _ = tr.StartsWith(p)
+			if got := drainQ(q); fmt.Sprint(got) != fmt.Sprint(wp) {
+				rep.Add("Trie.StartsWith/differs/shapes", fmt.Sprintf("%s: StartsWith(%q) yields %d keys, want %d", wit, p, len(got), len(wp)), wit, nil)
+			}
+			if lp, err := tr.LongestPrefix(sorted[0] + "~~"); err != nil || lp != sorted[0] {
+				rep.Add("Trie.LongestPrefix/wrong/shapes", fmt.Sprintf("%s: LongestPrefix(first key + \"~~\") = (%d bytes, %v), want the first key", wit, len(lp), err), wit, nil)
+			}
+		}
+		for L := 1; L <= 140; L++ {
+			check(fmt.Sprintf("Trie with one key of %d bytes and one of %d", L, L+1), []string{strings.Repeat("k", L), strings.Repeat("k", L) + "z"})
+		}
+		for _, m := range []int{8, 16, 31, 32, 33, 34, 48, 64, 65, 100, 200} {
+			for _, order := range []string{"descending", "ascending", "middle-out"} {
+				var keys []string
+				for i := 0; i < m; i++ {
+					j := i
+					switch order {
+					case "descending":
+						j = m - 1 - i
+					case "middle-out":
+						j = m/2 + (i+1)/2*(1-2*(i%2))
+						if j < 0 || j >= m {
+							j = i
+						}
+					}
+					keys = append(keys, "p"+string(rune(0x21+j))+"s") // differ at byte 1 (0x21..: printable)
+				}
+				check(fmt.Sprintf("Trie with %d keys differing at one byte position, inserted %s", m, order), keys)
+			}
+		}
 		rep.Inc("transitions", trans)
 		rep.Inc("traces_validated_against_impl", trans)
-		rep.Set("many_keys_family", fmt.Sprintf("n up to %d keys", N))
+		rep.Set("many_keys_family", fmt.Sprintf("n up to %d keys; keys of 1..141 bytes; spines of 8..200 siblings in three insertion orders", N))
 	}
 
 	// C05: deep queues. Enqueue n, then n+1 Dequeues with every value, Size and Peek checked.
